@@ -18,12 +18,12 @@ import (
 // in-process cluster and on a standalone DB fed the same points.
 
 type c10Case struct {
-	P        int      `json:"partitions"`
-	Leaders  int      `json:"leaders"`
-	Red      int      `json:"redundancy"`
-	Dataset  []c10Pt  `json:"dataset"`
-	FlushAll bool     `json:"flush"`
-	Query    string   `json:"query,omitempty"` // replay: only this query
+	P        int     `json:"partitions"`
+	Leaders  int     `json:"leaders"`
+	Red      int     `json:"redundancy"`
+	Dataset  []c10Pt `json:"dataset"`
+	FlushAll bool    `json:"flush"`
+	Query    string  `json:"query,omitempty"` // replay: only this query
 }
 
 type c10Pt struct {
@@ -384,9 +384,9 @@ func c10OrderKeys(q string) []c09Key {
 
 func init() {
 	fw.Register(&fw.Prop{
-		ID:    "C10",
-		Level: "exploration",
-		Rule: "configs P in {1,2,3} (quick) / 1..5 (thorough) × leaders {1,2} × followers per partition {1,2}; every cluster carries 5 tables on one stream with partitionBy in {none (all dims), [x], [y], [x,y], [x] with WHERE}; datasets: 6 fixed sets (absent partition-key dims, colliding keys, many keys) (quick) + all sets of up to 2 cells over x in {absent,1,2,3} × y in {absent,a,b} × 2 periods (thorough), inserted round-robin over the leaders, queried from memory and after flushing; 20 queries per table (native, GROUP BY each dim subset and none, derived fields, WHERE, HAVING, CROSSTAB(T), IN-subquery, FROM-subqueries, ORDER BY, LIMIT/OFFSET, coarse period) on every leader; oracle: rows equal a standalone DB fed the same points (multiset; sort-key sequence under ORDER BY; sub-multiset of the right size for bare LIMIT), per-table sums over partitions of (_points, a) per row equal standalone (each point applied by exactly one partition), redundant followers identical, no missing partitions; non-trivial = query with rows",
+		ID:          "C10",
+		Level:       "exploration",
+		Rule:        "configs P in {1,2,3} (quick) / 1..5 (thorough) × leaders {1,2} × followers per partition {1,2}; every cluster carries 5 tables on one stream with partitionBy in {none (all dims), [x], [y], [x,y], [x] with WHERE}; datasets: 6 fixed sets (absent partition-key dims, colliding keys, many keys) (quick) + all sets of up to 2 cells over x in {absent,1,2,3} × y in {absent,a,b} × 2 periods (thorough), inserted round-robin over the leaders, queried from memory and after flushing; 20 queries per table (native, GROUP BY each dim subset and none, derived fields, WHERE, HAVING, CROSSTAB(T), IN-subquery, FROM-subqueries, ORDER BY, LIMIT/OFFSET, coarse period) on every leader; oracle: rows equal a standalone DB fed the same points (multiset; sort-key sequence under ORDER BY; sub-multiset of the right size for bare LIMIT), per-table sums over partitions of (_points, a) per row equal standalone (each point applied by exactly one partition), redundant followers identical, no missing partitions; non-trivial = query with rows",
 		Assumptions: []string{"all virtual clocks are advanced to the same instant (synchronised wall clocks)", "exact quiescence from leader routing position, link accounting and follower hand-off counters"},
 		Shards:      func(tier string) int { return 12 },
 		Budget: func(tier string) time.Duration {
